@@ -99,6 +99,112 @@ def analyse(text, cls):
     return mut, casts, statics
 
 
+def decode_stream(text):
+    dec = json.JSONDecoder()
+    objs, i, n = [], 0, len(text)
+    while i < n:
+        while i < n and text[i] in " \r\n\t":
+            i += 1
+        if i >= n:
+            break
+        try:
+            obj, i = dec.raw_decode(text, i)
+        except ValueError:
+            break
+        objs.append(obj)
+    return objs
+
+
+CG = ["XalanTransformer", "XSLTProcessorEnvSupportDefault", "XPathEnvSupportDefault"]
+METHOD_KINDS = ("CXXMethodDecl", "CXXConstructorDecl", "CXXDestructorDecl", "CXXConversionDecl")
+
+
+def ast_callgraph():
+    """Typed call graph of the per-thread XalanTransformer API through the three classes of translate/c07_share.py section 5.
+    Each class is dumped from its own translation unit (declaration ids are not comparable across clang runs), so a member call
+    is resolved by the static type of its object expression + the member name, a constructor by the constructed type, and a
+    call of a static member function (DeclRefExpr; the qualifier is not in the JSON) to every class of the three that declares
+    a static member of that name.  -> (reachable non-static "Cls::name", reachable static candidates as {name: [Cls::name]}, problems)"""
+    side = json.load(open(os.path.join(common.GEN, "C07_Share.json")))
+    methods = {}     # class -> {name: is_static}
+    defs = {}        # (class, name) -> [definition nodes]
+    for cls in CG:
+        h = os.path.join(SRC, side["class_files"][cls])
+        cpp = re.sub(r"\.hpp$", ".cpp", h)
+        rc, out, err = dump(cpp if os.path.exists(cpp) else h, cls)
+        objs = decode_stream(out)
+        if not objs:
+            return None, None, ["clang produced no AST for %s: %s" % (cls, err[:200])]
+        rec_ids = set()
+
+        def recs(nd):
+            if nd.get("kind") == "CXXRecordDecl" and nd.get("name") == cls:
+                rec_ids.add(nd.get("id"))
+                for c in nd.get("inner", []) or []:
+                    if c.get("kind") in METHOD_KINDS:
+                        methods.setdefault(cls, {})[c.get("name")] = methods.get(cls, {}).get(c.get("name"), False) or c.get("storageClass") == "static"
+            for c in nd.get("inner", []) or []:
+                if c.get("kind") in ("CXXRecordDecl", "NamespaceDecl"):
+                    recs(c)
+        for o in objs:
+            recs(o)
+
+        def visit(nd, inside):
+            kind = nd.get("kind")
+            if kind == "CXXRecordDecl":
+                for c in nd.get("inner", []) or []:
+                    visit(c, nd.get("name") == cls)
+            elif kind in METHOD_KINDS:
+                if (inside or nd.get("parentDeclContextId") in rec_ids) and any(c.get("kind") == "CompoundStmt" for c in nd.get("inner", []) or []):
+                    defs.setdefault((cls, nd.get("name")), []).append(nd)
+            elif kind == "NamespaceDecl":
+                for c in nd.get("inner", []) or []:
+                    visit(c, inside)
+        for o in objs:
+            visit(o, False)
+
+    def cls_of(qt):
+        qt = re.sub(r"\b(const|volatile|class|struct)\b", " ", qt or "")
+        qt = re.sub(r"[&*]", " ", qt).strip()
+        qt = qt.split("::")[-1].strip()
+        return qt if qt in CG else None
+
+    def callees(nd, acc, statics):
+        kind = nd.get("kind")
+        if kind == "MemberExpr":
+            inner = (nd.get("inner") or [{}])[0]
+            c = cls_of((inner.get("type") or {}).get("qualType", ""))
+            nm = nd.get("name")
+            if c and nm in methods.get(c, {}):
+                acc.add((c, nm))
+        if kind == "DeclRefExpr":
+            rd = nd.get("referencedDecl") or {}
+            if rd.get("kind") in METHOD_KINDS:
+                cands = [(c, rd.get("name")) for c in CG if methods.get(c, {}).get(rd.get("name"))]
+                if cands:
+                    statics.setdefault(rd.get("name"), set()).update(cands)
+                    acc.update(cands)
+        if kind in ("CXXConstructExpr", "CXXTemporaryObjectExpr"):
+            c = cls_of((nd.get("type") or {}).get("qualType", ""))
+            if c:
+                acc.add((c, c)); acc.add((c, "~" + c))
+        for c in nd.get("inner", []) or []:
+            callees(c, acc, statics)
+    roots = [k for k in defs if k[0] == "XalanTransformer" and not methods["XalanTransformer"].get(k[1])]
+    reach, work, statics = set(), list(roots), {}
+    while work:
+        k = work.pop()
+        if k in reach or k not in defs:
+            continue
+        reach.add(k)
+        acc = set()
+        for nd in defs[k]:
+            callees(nd, acc, statics)
+        work += [x for x in acc if x in defs]
+    nonstatic = set("%s::%s" % k for k in reach if not methods.get(k[0], {}).get(k[1]))
+    return nonstatic, {n: sorted("%s::%s" % c for c in cs) for n, cs in statics.items()}, []
+
+
 def main():
     side = os.path.join(common.GEN, "C07_Share.json")
     if not os.path.exists(side):
@@ -148,6 +254,21 @@ def main():
                     t_stat.add((segs[-1], var))
         if set(statics) != t_stat:
             problems.append("%s: non-const static locals AST=%s table=%s" % (cls, sorted(set(statics)), sorted(t_stat)))
+    # call graph of the per-thread API: everything the typed graph reaches must be in the regex graph the table was built from
+    reach, statics, errs = ast_callgraph()
+    problems += errs
+    if reach is not None:
+        regex_reach = set(d.get("callgraph", {}).get("reachable", []))
+        missing = sorted(x for x in reach if x not in regex_reach)
+        if missing:
+            problems.append("call graph: reachable per the AST but not per the regex graph: %s" % missing[:12])
+        for nm, cands in sorted(statics.items()):
+            if not any(c in regex_reach for c in cands):
+                problems.append("call graph: a reachable function calls the static member %s (one of %s); the regex graph reaches none of them" % (nm, cands))
+        if "XSLTProcessorEnvSupportDefault::installExternalFunctionLocal" not in reach:
+            problems.append("call graph: AST graph does not reach XSLTProcessorEnvSupportDefault::installExternalFunctionLocal from doTransform")
+        print("c07_ast: call graph: %d non-static functions reachable per the AST, %d functions per the regex graph, static callees %s" % (
+            len(reach), len(regex_reach), sorted(statics)))
     print("c07_ast: %d classes checked with clang, %d skipped, %d differences" % (checked, len(skipped), len(problems)))
     for s in skipped[:10]:
         print("  skipped:", s)
